@@ -200,7 +200,8 @@ func init() {
 		// assignment (A pulls from S, S pulls from O) in which A holds a parked event of S or not
 		idleDepth, wide := 4, ""
 		if th {
-			idleDepth, wide = 6, ":wide"
+			// (about 0.14 s per execution: depth 5 over the wide alphabet is what fits the thorough budget; the phase runs last)
+			idleDepth, wide = 5, ":wide"
 		}
 		var idleItems []sched.Item
 		nIdle := 0
@@ -209,8 +210,11 @@ func init() {
 			nIdle = len(sched.ScenarioByName(name).Alphabet)
 			idleItems = append(idleItems, s2Items(name, []int{0}, idleDepth, nIdle, mons, 40)...)
 		}
-		extra = append(extra, Phase{Name: fmt.Sprintf("S2 from a quiescent 4-validator network, 4 role assignments (A,S): all sequences of length %d over %d actions (A pulls from S, S pulls from a third validator, submission at S, S silent for good, other gossip), then the fair suffix among the rest", idleDepth, nIdle),
-			Items: idleItems})
+		idlePhase := Phase{Name: fmt.Sprintf("S2 from a quiescent 4-validator network, 4 role assignments (A,S): all sequences of length %d over %d actions (A pulls from S, S pulls from a third validator, submission at S, S silent for good, other gossip), then the fair suffix among the rest", idleDepth, nIdle),
+			Items: idleItems}
+		if !th {
+			extra = append(extra, idlePhase)
+		}
 		// a validator that comes back: restarted empty with fast-sync, or from its database (bootstrap) with fast-sync
 		// enabled; its own newer events come back to it from its peers. Runs in which it unknowingly reused a height
 		// (equivocation) are outside the property and only counted.
@@ -256,6 +260,9 @@ func init() {
 			keep = append(keep, p)
 		}
 		ph = append(extra, keep...)
+		if th {
+			ph = append(ph, idlePhase)
+		}
 		b := 200 * time.Second
 		if th {
 			b = 45 * time.Minute
